@@ -1,6 +1,7 @@
 """C10: annotated records survive the GenBank and the JSON round trip.
 
-Three streams:
+Four streams ((d) qualifier codecs: aStool 'externally annotated by: <tool>', gene function text form through the model
+of _parse_format, sec_met domain label, number lists - fn 7-12; see qualifier_codec_cases):
  (a) codec: str(location) / location_from_string / str(int) / int(str) against the Coq model (fn 1-4);
  (b) skeleton: real Records holding protoclusters, subregions, candidate clusters and regions go through
      Record.to_biopython -> SeqIO.write -> SeqIO.parse -> Record.from_biopython and through
@@ -195,6 +196,295 @@ def codec_cases(chk, total):
             chk.count("codec_error_" + common.ERR_NAME.get(out[1], str(out[1])))
         chk.note_case(flat, nontrivial, {"function": fn, "argument": repr(arg)[:200], "implementation": out[:40]})
     return cases, outs
+
+
+# ---------------------------------------------------------------- (d) qualifier codec stream
+
+KNOWN_CLASS4 = "sideloaded_tool_prefix_recursion"
+KNOWN_CLASS5 = "gene_function_description_colon"
+KNOWN_CLASS6 = "sideloaded_protocluster_core_leak"
+KNOWN_CLASS7 = "notes_duplicated_on_write"
+KNOWN_CLASS8 = "pfam_empty_gene_ontologies"
+
+EXT_PREFIX = "externally annotated"
+GF_TOOLS = ["rule-based-clusters", "smcogs", "resist", "t2pks", "lanthipeptides", "mite", "halogenases", "x"]
+WORDS = ["pass", "2", "in-house", "pipeline", "v1.0", "alpha", "tool", "of", "the", "lab", "run", "#7", "a/b", "x=y",
+         "(beta)", "50%", "semi;colon", "it's", "plus+", "a_b", "[c]", "{d}", "<e>", "core", "KS", "PF00109"]
+
+
+def awkward_text(rng, long_ok=True):
+    """ free text as a sideload JSON may carry it: words joined by single spaces, with ': ', ':', quotes and other
+        punctuation in between; no token longer than 40 characters (Biopython breaks longer tokens when it wraps a
+        GenBank line and puts a space there on reading: third party), no leading/trailing/double spaces across a
+        possible line break """
+    r = rng.random()
+    if r < 0.25:
+        return rng.choice(["manual", "external", "cassis-like", "tool name", "x", "T", "my_tool", "tool.v2"])
+    n = rng.choice([1, 2, 2, 3, 4, 6] + ([14, 25] if long_ok else []))
+    out = rng.choice(WORDS)
+    for _ in range(n - 1):
+        out += rng.choice([" ", " ", " ", ": ", ": ", ":", " - ", ", ", ' "', '" ', " '", "; ", " (", ") ", "/"]) + rng.choice(WORDS)
+    if rng.random() < 0.15:
+        out = '"' + out + '"'
+    return out.strip() or "x"
+
+
+def gen_tool_name(rng):
+    r = rng.random()
+    if r < 0.04:
+        return EXT_PREFIX + rng.choice(["", " by me", " by: someone", ": x", "ly"])       # the recursion class
+    if r < 0.10:
+        return rng.choice(["a: b", "a: b: c", ": a", "a: ", "a:b", "externally", "external annotation: x", "by: x",
+                           "in-house pipeline: pass 2"])
+    return awkward_text(rng, long_ok=False)
+
+
+def real_astool(kind, tool):
+    """ the aStool qualifier the real classes write for a sideloaded area """
+    from antismash.common.secmet.features.protocluster import SideloadedProtocluster
+    from antismash.common.secmet.features.subregion import SideloadedSubRegion, SubRegion
+    from antismash.common.secmet.locations import FeatureLocation as FL
+    if kind == 0:
+        area = SideloadedSubRegion(FL(0, 9, 1), tool=tool)
+    elif kind == 1:
+        area = SideloadedProtocluster(FL(3, 6, 1), FL(0, 9, 1), tool, "prod")
+    else:
+        area = SubRegion(FL(0, 9, 1), tool=tool)
+    return area.to_biopython()[0].qualifiers["aStool"][0]
+
+
+def real_astool_decode(kind, text):
+    from Bio.SeqFeature import SeqFeature
+    from antismash.common.secmet.features import Protocluster, SubRegion
+    from antismash.common.secmet.features.protocluster import SideloadedProtocluster
+    from antismash.common.secmet.features.subregion import SideloadedSubRegion
+    from antismash.common.secmet.locations import FeatureLocation as FL
+    try:
+        if kind == 0:
+            area = SubRegion.from_biopython(SeqFeature(FL(0, 9, 1), type="subregion", qualifiers={"aStool": [text]}))
+            side = isinstance(area, SideloadedSubRegion)
+        else:
+            quals = {"aStool": [text], "neighbourhood": ["0"], "cutoff": ["0"], "product": ["p"],
+                     "detection_rule": ["r"], "core_location": ["[3:6](+)"]}
+            area = Protocluster.from_biopython(SeqFeature(FL(0, 9, 1), type="protocluster", qualifiers=quals))
+            side = isinstance(area, SideloadedProtocluster)
+        return [0, int(side)] + enc_str(area.tool)
+    except Exception as exc:  # pylint: disable=broad-except
+        return [1, err_code(exc)]
+
+
+GF_ALPHA = "abcXYZ019 :()-_.;,%/'\"[]"
+
+
+def gen_gfa(rng):
+    """ (function code, tool, product or None, description) """
+    f = rng.randrange(6)
+    tool = rng.choice(GF_TOOLS)
+    r = rng.random()
+    if r < 0.08:
+        tool = rng.choice(["a)b", "two words", " lead", "t(x)", "a:b", "", "tab\tx"])
+    product = None
+    if f == 1 or rng.random() < 0.25:
+        product = rng.choice(["T1PKS", "NRPS", "terpene", "NRPS-like", "x", "a b", "pro:duct", "p(1)"])
+    r = rng.random()
+    if r < 0.5:
+        desc = rng.choice(["PKS_KS", "AMP-binding", "predicted lanthipeptide", "Condensation_LCL", "x", "mod_KS"])
+    elif r < 0.75:
+        desc = rng.choice(["SMCOG1001", "RF0001", "MITE0000012"]) + ": " + awkward_text(rng, long_ok=False)
+    elif r < 0.85:
+        desc = rng.choice(["KS (Score: 10.0; E-value: 1e-5)", "a: ", "a:", ":a", ": ", "x: y: z", "(a) b", "a (b) c: d"])
+    else:
+        desc = awkward_text(rng, long_ok=False)
+    return f, tool, product, desc
+
+
+def enc_gfa(f, tool, product, desc):
+    return [f] + enc_str(tool) + ([0] if product is None else [1] + enc_str(product)) + enc_str(desc)
+
+
+def real_gfa(f, tool, product, desc):
+    from antismash.common.secmet.qualifiers.gene_functions import GeneFunction, _GeneFunctionAnnotation
+    return _GeneFunctionAnnotation(GeneFunction(f), tool, desc, product)
+
+
+def real_gfa_parse(text):
+    from antismash.common.secmet.qualifiers.gene_functions import _GeneFunctionAnnotation
+    try:
+        a = _GeneFunctionAnnotation.from_string(text)
+        return [0] + enc_gfa(a.function.value, a.tool, a.product, a.description)
+    except Exception as exc:  # pylint: disable=broad-except
+        return [1, err_code(exc)]
+
+
+def gfa_guard(f, tool, product, desc):
+    """ the guard of C10_gene_function_codec, independently of the model """
+    if not tool or any(c.isspace() or c == ")" for c in tool) or not desc or "\n" in desc:
+        return False
+    if product is not None:
+        return bool(product) and ":" not in product and "\n" not in product
+    return f != 1 and ":" not in tool and ":" not in desc
+
+
+def ascii_only(text):
+    return all(ord(c) < 127 for c in text)
+
+
+def qualifier_codec_cases(chk, total, prefix_listed, colon_listed):
+    """ fn 7-12: aStool composition / decomposition, gene function text form, _parse_format on the sec_met domain
+        label, number lists.  Returns (cases, outs). """
+    from antismash.common.secmet.qualifiers.secmet import SecMetQualifier, _parse_format
+    rng = chk.rng
+    cases, outs = [], []
+    reported = {"tool": 0, "gfa": 0}
+    for _ in range(total):
+        r = rng.random()
+        if r < 0.22:
+            # aStool written by the real classes, compared with the model, and read back (the property on the codec)
+            kind = rng.randrange(3)
+            tool = gen_tool_name(rng)
+            text = real_astool(kind, tool)
+            flat = [PROP, 7, int(kind != 2)] + enc_str(tool)
+            out = enc_str(text)
+            chk.count("qual_astool_write")
+            back = real_astool_decode(0 if kind in (0, 2) else 1, text)
+            expect = [0, int(kind != 2)] + enc_str(tool)
+            if back != expect:
+                if tool.startswith(EXT_PREFIX):
+                    chk.count("qual_astool_roundtrip_fails_in_class_" + KNOWN_CLASS4)
+                    if not prefix_listed and reported["tool"] < 2:
+                        reported["tool"] += 1
+                        chk.violation("counterexample", "an area whose tool name starts with 'externally annotated' cannot be "
+                                      "read back", {"theorem_or_correspondence": "C10_astool_codec", "function": 8,
+                                                    "input": {"tool": tool, "kind": kind, "qualifier": text},
+                                                    "implementation": back, "expected": expect})
+                elif reported["tool"] < 2:
+                    reported["tool"] += 1
+                    chk.violation("counterexample", "the tool name of an area is not recovered from its aStool qualifier",
+                                  {"theorem_or_correspondence": "C10_astool_codec", "function": 8, "flat": [PROP, 8] + enc_str(text),
+                                   "input": {"tool": tool, "kind": ["sideloaded subregion", "sideloaded protocluster",
+                                                                    "subregion"][kind], "qualifier": text},
+                                   "implementation": back, "expected": expect,
+                                   "recovered_tool": "".join(map(chr, back[3:])) if back[0] == 0 else None})
+            nontrivial = ": " in tool
+        elif r < 0.40:
+            kind = rng.randrange(2)
+            tool = gen_tool_name(rng)
+            text = rng.choice([tool, "externally annotated by: " + tool, "externally annotated by: " + tool,
+                               "externally annotated by " + tool, "externally annotated" + tool, mutate_ascii(rng, "externally annotated by: " + tool)])
+            flat = [PROP, 8] + enc_str(text)
+            out = real_astool_decode(kind, text)
+            chk.count("qual_astool_read")
+            if out[0] == 1:
+                chk.count("qual_astool_read_error_" + common.ERR_NAME.get(out[1], str(out[1])))
+            nontrivial = True
+        elif r < 0.55:
+            f, tool, product, desc = gen_gfa(rng)
+            if not ascii_only(tool + desc + (product or "")):
+                continue
+            try:
+                ann = real_gfa(f, tool, product, desc)
+            except Exception:  # pylint: disable=broad-except
+                chk.count("qual_gene_function_not_constructible")
+                continue
+            text = str(ann)
+            flat = [PROP, 9] + enc_gfa(f, tool, product or None, desc)
+            out = enc_str(text)
+            chk.count("qual_gene_function_write")
+            back = real_gfa_parse(text)
+            expect = [0] + enc_gfa(f, tool, product or None, desc)
+            guard = gfa_guard(f, tool, product or None, desc)
+            if guard:
+                chk.count("qual_gene_function_guard_holds")
+            if back != expect:
+                if guard:
+                    if reported["gfa"] < 2:
+                        reported["gfa"] += 1
+                        chk.violation("counterexample", "a gene function annotation is not recovered from its text form",
+                                      {"theorem_or_correspondence": "C10_gene_function_codec", "function": 10,
+                                       "flat": [PROP, 10] + enc_str(text),
+                                       "input": {"function": f, "tool": tool, "product": product, "description": desc,
+                                                 "text": text},
+                                       "implementation": back, "expected": expect, "guard": guard})
+                elif not product and ":" in desc:
+                    chk.count("qual_gene_function_roundtrip_differs_in_class_" + KNOWN_CLASS5)
+                    if not colon_listed and reported["gfa"] < 2:
+                        reported["gfa"] += 1
+                        chk.violation("counterexample", "a gene function without product whose description contains ':' reads "
+                                      "back with a product", {"theorem_or_correspondence": "C10_gene_function_codec",
+                                                              "function": 10,
+                                                              "input": {"function": f, "tool": tool, "description": desc},
+                                                              "implementation": back, "expected": expect})
+                else:
+                    # tool names with ')' or ':' and products with ':' - no antiSMASH module uses such names
+                    chk.count("qual_gene_function_roundtrip_differs_outside_guard")
+            nontrivial = True
+        elif r < 0.75:
+            f, tool, product, desc = gen_gfa(rng)
+            try:
+                text = str(real_gfa(f, tool, product, desc))
+            except Exception:  # pylint: disable=broad-except
+                text = f"{tool} ({desc})"
+            if rng.random() < 0.5:
+                text = mutate_ascii(rng, text)
+            if not ascii_only(text):
+                continue
+            flat = [PROP, 10] + enc_str(text)
+            out = real_gfa_parse(text)
+            chk.count("qual_gene_function_read")
+            if out[0] == 1:
+                chk.count("qual_gene_function_read_error_" + common.ERR_NAME.get(out[1], str(out[1])))
+            nontrivial = True
+        elif r < 0.9:
+            dom = SecMetQualifier.Domain(rng.choice(["PKS_KS", "AMP-binding", "Condensation_LCL", "a b", "x(1)", "p,q"]),
+                                         rng.choice([1e-20, 3.5e-7, 0.0, 1.0, 2.2e-150]), rng.choice([150.3, 20.0, 1234.5, 0.1]),
+                                         rng.choice([0, 1, 12, 400]), rng.choice(["rule-based-clusters", "t", "a)b", "x y"]))
+            text = str(dom)
+            if rng.random() < 0.5:
+                text = mutate_ascii(rng, text)
+            flat = [PROP, 11] + enc_str(text)
+            try:
+                groups = list(_parse_format(SecMetQualifier.Domain.qualifier_label, text))
+                out = [0, len(groups)] + [x for g in groups for x in enc_str(g)]
+            except Exception as exc:  # pylint: disable=broad-except
+                out = [1, err_code(exc)]
+            chk.count("qual_secmet_domain_read")
+            if out[0] == 1:
+                chk.count("qual_secmet_domain_read_error_" + common.ERR_NAME.get(out[1], str(out[1])))
+            nontrivial = True
+        else:
+            nums = [rng.choice([1, 2, 9, 10, 11, 99, 100, rng.randint(1, 5000)]) for _ in range(rng.choice([0, 1, 2, 3, 12]))]
+            texts = [str(n) for n in nums]
+            if rng.random() < 0.3 and texts:
+                i = rng.randrange(len(texts))
+                texts[i] = rng.choice(["", "x", "1x", "+3", "-2", "007", "1.0"])
+            flat = [PROP, 12, len(texts)] + [x for t in texts for x in enc_str(t)]
+            try:
+                vals = [int(t) for t in texts]
+                out = [0, len(vals)] + vals
+            except Exception as exc:  # pylint: disable=broad-except
+                out = [1, err_code(exc)]
+            chk.count("qual_number_list_read")
+            nontrivial = len(texts) > 1
+        cases.append(flat)
+        outs.append(out)
+        chk.note_case(flat, nontrivial, {"function": flat[1], "payload": flat[2:40], "implementation": out[:40]})
+    return cases, outs
+
+
+def mutate_ascii(rng, text):
+    alphabet = "(): ,-_aE\n\t)x0"
+    for _ in range(rng.choice([1, 1, 2])):
+        if not text:
+            break
+        i = rng.randrange(len(text))
+        r = rng.random()
+        if r < 0.4:
+            text = text[:i] + text[i + 1:]
+        elif r < 0.7:
+            text = text[:i] + rng.choice(alphabet) + text[i:]
+        else:
+            text = text[:i] + rng.choice(alphabet) + text[i + 1:]
+    return text
 
 
 # ---------------------------------------------------------------- (b) skeleton stream
@@ -611,7 +901,350 @@ def gen_whole_record(rng, counts):
                 record.add_subregion(SubRegion(FL(s, s + rng.randint(10, 50), 1), tool="sub", label=rng.choice(["", "lbl"])))
         except Exception as exc:  # pylint: disable=broad-except
             counts["gen_sub_" + type(exc).__name__] += 1
+    enrich(rng, record, genes, counts, n, circular)
     return record
+
+
+# ---------------------------------------------------------------- (c') awkward but legal annotation values
+
+def enrich(rng, record, genes, counts, n, circular):
+    """ adds what gen_whole_record leaves out: sec_met domains, gene functions of every kind, awkward notes,
+        modules, sideloaded areas with awkward tool names / labels / extra qualifiers """
+    from antismash.common.secmet.features import AntismashDomain, Module, SubRegion
+    from antismash.common.secmet.features.module import ModuleType
+    from antismash.common.secmet.features.protocluster import SideloadedProtocluster
+    from antismash.common.secmet.features.subregion import SideloadedSubRegion
+    from antismash.common.secmet.qualifiers.gene_functions import GeneFunction
+    from antismash.common.secmet.qualifiers.secmet import SecMetQualifier
+    from antismash.common.secmet.locations import FeatureLocation as FL, CompoundLocation as CL
+    for g in genes:
+        try:
+            if rng.random() < 0.35:
+                doms = [SecMetQualifier.Domain(name, rng.choice([1e-20, 3.5e-07, 0.0, 2.2e-150, 1.0]),
+                                               rng.choice([150.3, 20.0, 1234.5, 0.1]), rng.choice([0, 1, 12, 400]),
+                                               "rule-based-clusters")
+                        for name in rng.sample(["PKS_KS", "AMP-binding", "Condensation_LCL", "mod_KS", "PP-binding"],
+                                               rng.choice([1, 2, 3]))]
+                g.sec_met = SecMetQualifier(doms)
+                counts["cds_sec_met"] += 1
+            for _ in range(rng.choice([0, 0, 1, 2])):
+                function = rng.choice(list(GeneFunction))
+                tool = rng.choice(GF_TOOLS[:-1])
+                product = rng.choice(["T1PKS", "NRPS-like", "terpene"]) if function == GeneFunction.CORE or rng.random() < 0.15 \
+                    else None
+                r = rng.random()
+                if r < 0.6:
+                    desc = rng.choice(["PKS_KS", "AMP-binding", "predicted lanthipeptide", "Condensation_LCL"])
+                elif r < 0.8 and product is None:
+                    # what detection/genefunctions writes: "<reference id>: <description>" without product
+                    desc = rng.choice(["SMCOG1001", "RF0001", "MITE0000012"]) + ": " + awkward_text(rng).replace(":", "")
+                    counts["gene_function_colon_description"] += 1
+                else:
+                    desc = awkward_text(rng).replace(":", "")
+                g.gene_functions.add(function, tool, desc, product)
+                counts["gene_function_" + str(function)] += 1
+            if rng.random() < 0.25 and not g._qualifiers.get("note"):  # pylint: disable=protected-access
+                for _ in range(rng.choice([1, 2, 3])):
+                    g.notes.append(awkward_text(rng))
+                counts["cds_awkward_notes"] += 1
+        except Exception as exc:  # pylint: disable=broad-except
+            counts["gen_enrich_" + type(exc).__name__] += 1
+    # modules over freshly made aSDomains of one gene
+    for g in genes:
+        plen = len(g.location) // 3
+        if plen < 12 or rng.random() > 0.3:
+            continue
+        try:
+            cuts = sorted(rng.sample(range(0, plen), 4))
+            doms = []
+            for k, (a, b) in enumerate(((cuts[0], cuts[1]), (cuts[2], cuts[3]))):
+                if a == b:
+                    continue
+                dom = AntismashDomain(g.get_sub_location_from_protein_coordinates(a, b), "test_tool", FL(a, b), g.get_name())
+                dom.domain_id = f"nrpspksdomains_{g.get_name()}_m{k}_{a}_{b}"
+                dom.domain = rng.choice(["PKS_KS", "PKS_AT", "AMP-binding", "PCP"])
+                record.add_antismash_domain(dom)
+                doms.append(dom)
+            if not doms:
+                continue
+            start = min(d.location.start for d in doms)
+            end = max(d.location.end for d in doms)
+            if len(g.location.parts) > 1:
+                loc = g.get_sub_location_from_protein_coordinates(doms[0].protein_location.start, doms[-1].protein_location.end)
+            else:
+                loc = FL(start, end, g.location.strand)
+            module = Module(loc, doms, module_type=rng.choice(list(ModuleType)), complete=rng.random() < 0.5,
+                            starter=rng.random() < 0.2, final=rng.random() < 0.2, iterative=rng.random() < 0.1)
+            if rng.random() < 0.5:
+                module.add_monomer(rng.choice(["mal", "ala", "X"]), rng.choice(["mal", "d-ala", "redmal"]))
+            record.add_module(module)
+            counts["module"] += 1
+        except Exception as exc:  # pylint: disable=broad-except
+            counts["gen_module_" + type(exc).__name__] += 1
+    # sideloaded areas with awkward names
+    for _ in range(rng.choice([0, 1, 1, 2])):
+        s = rng.randrange(0, n - 60)
+        e = s + rng.randint(10, 50)
+        extra = {}
+        for _k in range(rng.choice([0, 0, 1, 2, 3])):
+            extra["x-" + rng.choice(["conf", "stage", "Evidence.1", "key_9", "a-b"])] = \
+                [awkward_text(rng) for _v in range(rng.choice([1, 1, 2, 3]))]
+        try:
+            if rng.random() < 0.6:
+                tool = gen_tool_name(rng)
+                label = rng.choice(["", "", awkward_text(rng, long_ok=False)])
+                if circular and rng.random() < 0.2:
+                    loc = CL([FL(n - rng.randint(5, 40), n, 1), FL(0, rng.randint(5, 40), 1)])
+                else:
+                    loc = FL(s, e, 1)
+                record.add_subregion(SideloadedSubRegion(loc, tool=tool, label=label, extra_qualifiers=extra))
+                counts["sideloaded_subregion_awkward"] += 1
+                if ": " in tool:
+                    counts["sideloaded_subregion_tool_with_colon_space"] += 1
+            elif rng.random() < 0.6:
+                tool = gen_tool_name(rng)
+                nb = rng.choice([0, 0, 5])
+                if s - nb < 0 or e + nb > n:
+                    continue
+                record.add_protocluster(SideloadedProtocluster(FL(s, e, 1), FL(s - nb, e + nb, 1), tool,
+                                                               rng.choice(["prodA", "ext-prod", "x_1"]),
+                                                               neighbourhood_range=nb, extra_qualifiers=extra))
+                counts["sideloaded_protocluster_awkward"] += 1
+                if ": " in tool:
+                    counts["sideloaded_protocluster_tool_with_colon_space"] += 1
+            else:
+                record.add_subregion(SubRegion(FL(s, e, 1), tool=rng.choice(["cassis", "sideloader", "tool-2"]),
+                                               label=rng.choice(["", awkward_text(rng, long_ok=False)])))
+                counts["subregion_awkward_label"] += 1
+        except Exception as exc:  # pylint: disable=broad-except
+            counts["gen_sideload_" + type(exc).__name__] += 1
+
+
+def notes_of(feature):
+    return sorted(list(feature.notes) + list(feature._qualifiers.get("note") or []))  # pylint: disable=protected-access
+
+
+def describe_record(record):
+    """ the record field by field, read from the objects (to_biopython is not involved) """
+    out = {"record": {"sequence": str(record.seq), "circular": record.is_circular(), "length": len(record.seq)}}
+    protos = list(record.get_protoclusters())
+    subs = list(record.get_subregions())
+    cands = list(record.get_candidate_clusters())
+    for i, p in enumerate(protos):
+        out[f"protocluster {i + 1}"] = {
+            "class": type(p).__name__, "location": str(p.location), "core_location": str(p.core_location), "tool": p.tool,
+            "product": p.product, "category": p.product_category, "cutoff": p.cutoff, "neighbourhood": p.neighbourhood_range,
+            "detection_rule": p.detection_rule, "extra_qualifiers": getattr(p, "extra_qualifiers", None), "notes": notes_of(p)}
+    for i, s in enumerate(subs):
+        out[f"subregion {i + 1}"] = {"class": type(s).__name__, "location": str(s.location), "tool": s.tool, "label": s.label,
+                                    "extra_qualifiers": getattr(s, "extra_qualifiers", None), "notes": notes_of(s)}
+    for i, c in enumerate(cands):
+        out[f"candidate {i + 1}"] = {"location": str(c.location), "kind": str(c.kind), "smiles": c.smiles_structure,
+                                    "polymer": c.polymer,
+                                    "protoclusters": [index_by_identity(protos, p) + 1 for p in c.protoclusters]}
+    for i, r in enumerate(record.get_regions()):
+        out[f"region {i + 1}"] = {"location": str(r.location),
+                                 "candidates": [index_by_identity(cands, c) + 1 for c in r.candidate_clusters],
+                                 "subregions": [index_by_identity(subs, s) + 1 for s in r.subregions]}
+    for cds in record.get_cds_features():
+        out["CDS " + cds.get_name()] = {
+            "location": str(cds.location), "translation": cds.translation, "product": cds.product, "protein_id": cds.protein_id,
+            "locus_tag": cds.locus_tag, "gene": cds.gene, "notes": notes_of(cds),
+            "codon_start": cds._original_codon_start,  # pylint: disable=protected-access
+            "gene_functions": [(str(a.function), a.tool, a.product or None, a.description) for a in cds.gene_functions],
+            "gene_function_texts": [str(a) for a in cds.gene_functions], "gene_kind": str(cds.gene_function),
+            "sec_met": [(d.name, d.evalue, d.bitscore, d.nseeds, d.tool) for d in (cds.sec_met or [])],
+            "modules": [str(m.location) for m in cds.modules]}
+    for g in record.get_genes():
+        out[f"gene {g.get_name()} {g.location}"] = {"location": str(g.location), "name": g.get_name(), "notes": notes_of(g)}
+    for kind, items in (("PFAM_domain", record.get_pfam_domains()), ("aSDomain", record.get_antismash_domains()),
+                        ("CDS_motif", record.get_cds_motifs())):
+        for d in items:
+            entry = {"location": str(d.location), "protein_location": str(d.protein_location), "notes": notes_of(d)}
+            for attr in ("locus_tag", "tool", "domain", "domain_id", "label", "identifier", "description", "version",
+                         "specificity", "domain_subtypes"):
+                try:
+                    val = getattr(d, attr)
+                except (AttributeError, ValueError):
+                    continue
+                entry[attr] = list(val) if isinstance(val, (list, tuple)) else val
+            out[f"{kind} {d.get_name()}"] = entry
+    for m in record.get_modules():
+        out[f"module {m.location} {m.domains[0].get_name()}"] = {"location": str(m.location), "domains": [d.get_name() for d in m.domains],
+                                 "type": str(m.module_type), "complete": m.is_complete(), "starter": m.is_starter_module(),
+                                 "final": m.is_final_module(), "iterative": m.is_iterative(),
+                                 "monomers": list(m.get_substrate_monomer_pairs()), "parents": list(m.parent_cds_names)}
+    return out
+
+
+def diff_descriptions(before, after):
+    """ [(feature, field, before, after)] """
+    out = []
+    for key in list(before) + [k for k in after if k not in before]:
+        a, b = before.get(key), after.get(key)
+        if a == b:
+            continue
+        if a is None or b is None:
+            out.append((key, "<feature>", "present" if a else "missing", "present" if b else "missing"))
+            continue
+        for field in list(a) + [f for f in b if f not in a]:
+            if a.get(field) != b.get(field):
+                out.append((key, field, a.get(field), b.get(field)))
+    return out
+
+
+def bio_canon(bio):
+    return [(f.type, str(f.location), {k: (list(v) if isinstance(v, (list, tuple)) else v) for k, v in sorted(f.qualifiers.items())})
+            for f in bio.features]
+
+
+def json_features(text):
+    doc = pyjson.loads(text)
+    return doc.get("features"), doc.get("seq")
+
+
+def colon_function_only(diffs, built_desc):
+    """ every difference is a gene function without product whose description holds ':' coming back with a product """
+    for key, field, before, after in diffs:
+        if not key.startswith("CDS ") or field != "gene_functions":
+            return False
+        if len(before) != len(after):
+            return False
+        for x, y in zip(before, after):
+            if tuple(x) == tuple(y):
+                continue
+            if x[2] is None and ":" in x[3] and x[0] == y[0] and x[1] == y[1]:
+                continue
+            return False
+    return bool(diffs)
+
+
+def core_leak_only(canon1, canon2, built):
+    """ the second file differs from the first only in proto_core features of sideloaded protoclusters, which gained
+        exactly category and core_location """
+    from antismash.common.secmet.features.protocluster import SideloadedProtocluster
+    if len(canon1) != len(canon2):
+        return False
+    cores = {str(p.core_location) for p in built.get_protoclusters() if isinstance(p, SideloadedProtocluster)}
+    found = False
+    for a, b in zip(canon1, canon2):
+        if a == b:
+            continue
+        if a[0] != "proto_core" or b[0] != "proto_core" or a[1] != b[1] or a[1] not in cores:
+            return False
+        gained = {k: v for k, v in b[2].items() if k not in a[2]}
+        if set(gained) - {"category", "core_location"} or any(a[2][k] != b[2][k] for k in a[2]) or set(a[2]) - set(b[2]):
+            return False
+        found = True
+    return found
+
+
+def has_note_overlap(record):
+    """ a feature holding notes both in its leftover qualifiers and in .notes (Feature.to_biopython extends the former
+        in place on every call) """
+    for f in record.all_features:
+        if f.notes and f._qualifiers.get("note"):  # pylint: disable=protected-access
+            return True
+    return False
+
+
+def first_write_stage(chk, built, counts, listed):
+    """ the freshly built record (what the pipeline holds before it writes anything): field by field against its
+        reloaded self through both routes, and first file against the second.  Returns the record re-read from the
+        GenBank text (None when that is impossible). """
+    from Bio import SeqIO
+    from antismash.common.secmet import Record
+    from antismash.common import serialiser, json
+    note_overlap = has_note_overlap(built)
+    if note_overlap:
+        counts["records_in_class_" + KNOWN_CLASS7] += 1
+    before = describe_record(built)
+    reread = None
+    for path in ("genbank", "json"):
+        problems = []          # (what, details, class or None)
+        try:
+            if path == "genbank":
+                bio0, text0 = write_genbank(built)
+                reloaded = Record.from_biopython(list(SeqIO.parse(io.StringIO(text0), "genbank"))[0], "bacteria")
+                reread = reloaded
+                bio1, _text1 = write_genbank(reloaded)
+                canon0, canon1 = bio_canon(bio0), bio_canon(bio1)
+            else:
+                bio0, text0 = write_json(built)
+                reloaded = serialiser.record_from_json(json.loads(text0), "bacteria")
+                bio1, text1 = write_json(reloaded)
+                canon0, canon1 = bio_canon(bio0), bio_canon(bio1)
+                if canon0 == canon1 and json_features(text0) != json_features(text1):
+                    problems.append(("second JSON output differs from the first in its features", None, None))
+            after = describe_record(reloaded)
+            for one in diff_descriptions(before, after):
+                cls = None
+                if colon_function_only([one], before):
+                    cls = KNOWN_CLASS5
+                elif note_overlap and one[1] == "notes" and set(one[2]) == set(one[3]):
+                    cls = KNOWN_CLASS7          # the same notes, some of them repeated
+                problems.append(("reloaded record differs field by field",
+                                 (one[0], one[1], repr(one[2])[:300], repr(one[3])[:300]), cls))
+            if len(canon0) != len(canon1):
+                problems.append(("second output differs from the first (not a fixed point)",
+                                 ("feature count", len(canon0), len(canon1)), None))
+            for a, b in zip(canon0, canon1):
+                if a == b:
+                    continue
+                keys = sorted(k for k in set(a[2]) | set(b[2]) if a[2].get(k) != b[2].get(k))
+                cls = None
+                if a[:2] != b[:2]:
+                    cls = None
+                elif a[0] == "proto_core" and core_leak_only([a], [b], built):
+                    cls = KNOWN_CLASS6
+                elif a[0] == "PFAM_domain" and keys == ["gene_ontologies"] and "gene_ontologies" not in a[2] \
+                        and b[2]["gene_ontologies"] == []:
+                    cls = KNOWN_CLASS8
+                elif note_overlap and keys == ["note"]:
+                    cls = KNOWN_CLASS7
+                problems.append(("second output differs from the first (not a fixed point)",
+                                 (a[0], a[1], b[0], b[1], keys, [repr(a[2].get(k))[:120] for k in keys],
+                                  [repr(b[2].get(k))[:120] for k in keys]), cls))
+        except RecursionError:
+            areas = list(built.get_subregions()) + list(built.get_protoclusters())
+            cls = None
+            if any(getattr(a, "extra_qualifiers", None) is not None and a.tool.startswith(EXT_PREFIX) for a in areas):
+                cls = KNOWN_CLASS4
+            problems.append(("reload does not terminate (RecursionError)",
+                             [a.tool for a in areas if hasattr(a, "extra_qualifiers")], cls))
+        except Exception as exc:  # pylint: disable=broad-except
+            problems.append((f"reload raised {type(exc).__name__}: {exc}"[:200], None, None))
+        if not problems:
+            counts["first_write_" + path + "_ok"] += 1
+            continue
+        unexplained = [p for p in problems if p[2] is None or not listed.get(p[2])]
+        for cls in sorted({p[2] for p in problems if p[2] is not None and listed.get(p[2])}):
+            counts["first_write_" + path + "_differs_in_known_class_" + cls] += 1
+        if not unexplained:
+            continue
+        # the older classes are judged on the whole record
+        if all(p[2] is None for p in unexplained):
+            older = None
+            if listed.get(KNOWN_CLASS) and has_equal_key_areas(built):
+                older = KNOWN_CLASS
+            elif listed.get(KNOWN_CLASS3) and has_equal_key_genes(built) and \
+                    all(p[0].startswith("second output") for p in unexplained):
+                older = KNOWN_CLASS3
+            elif listed.get(KNOWN_CLASS2) and has_mutually_less_areas(built):
+                older = KNOWN_CLASS2
+            if older is not None:
+                counts["first_write_" + path + "_differs_in_known_class_" + older] += 1
+                continue
+        what, details, cls = unexplained[0]
+        chk.violation("counterexample", f"freshly built record, {path} round trip: {what}"
+                      + (f" (class {cls}, not listed as known)" if cls else ""),
+                      {"theorem_or_correspondence": f"whole-record {path} round trip (first write)", "details": details,
+                       "all_differences": [(p[0], p[1], p[2]) for p in unexplained[:8]],
+                       "input": safe_outline(built), "circular": built.is_circular(), "record_length": len(built.seq),
+                       "areas": [(type(a).__name__, str(a.location), a.tool, getattr(a, "label", None),
+                                  getattr(a, "extra_qualifiers", None))
+                                 for a in list(built.get_subregions()) + list(built.get_protoclusters())]})
+    return reread
 
 
 def has_equal_key_areas(record):
@@ -678,7 +1311,7 @@ def witness3_reproduces():
     return before != [c.get_name() for c in reloaded.get_cds_features()]
 
 
-def whole_record_stream(chk, total, known_listed, known2_listed, known3_listed=False):
+def whole_record_stream(chk, total, known_listed, known2_listed, known3_listed=False, listed=None):
     import collections
     from Bio import SeqIO
     from antismash.common.secmet import Record
@@ -696,6 +1329,18 @@ def whole_record_stream(chk, total, known_listed, known2_listed, known3_listed=F
             setup_failures.append(f"{type(exc).__name__}: {exc}"[:200])
             continue
         kind = "circular" if built.is_circular() else "linear"
+        # stage 0: the freshly built record against its reloaded self (fields, first file against second file)
+        outline = None
+        try:
+            first_write_stage(chk, built, counts, listed or {})
+        except Exception as exc:  # pylint: disable=broad-except
+            chk.violation("counterexample", f"a generated record cannot be written: {type(exc).__name__}: {exc}"[:300],
+                          {"theorem_or_correspondence": "whole-record round trip (first write)"})
+            continue
+        if any(getattr(a, "extra_qualifiers", None) is not None and a.tool.startswith(EXT_PREFIX)
+               for a in list(built.get_subregions()) + list(built.get_protoclusters())):
+            counts["records_in_class_" + KNOWN_CLASS4] += 1
+            continue        # cannot be reloaded at all: judged in stage 0
         try:
             # the record under test is obtained by parsing once: header annotations in Biopython's normal form
             _bio, text0 = write_genbank(built)
@@ -794,6 +1439,76 @@ def witness_reproduces():
     return before != after
 
 
+def plain_record(n=400):
+    from antismash.common.secmet import Record
+    record = Record("ACGT" * (n // 4))
+    record.id = record.name = "rec"
+    record.add_annotation("topology", "linear")
+    record.add_annotation("molecule_type", "DNA")
+    return record
+
+
+def witness4_reproduces():
+    """ a sideloaded subregion whose tool name starts with 'externally annotated' cannot be read back """
+    from antismash.common.secmet.features.subregion import SideloadedSubRegion
+    from antismash.common.secmet.locations import FeatureLocation as FL
+    record = plain_record()
+    record.add_subregion(SideloadedSubRegion(FL(10, 40, 1), tool="externally annotated by me"))
+    try:
+        roundtrip_json(record)
+    except RecursionError:
+        return True
+    return False
+
+
+def witness5_reproduces():
+    """ ADDITIONAL (smcogs) 'SMCOG1001: thing' without product comes back with product SMCOG1001 """
+    return real_gfa_parse("biosynthetic-additional (smcogs) SMCOG1001: thing") == [0] + enc_gfa(2, "smcogs", "SMCOG1001", "thing")
+
+
+def witness6_reproduces():
+    """ the proto_core feature of a sideloaded protocluster gains category and core_location on the second write """
+    from antismash.common.secmet.features.protocluster import SideloadedProtocluster
+    from antismash.common.secmet.locations import FeatureLocation as FL
+    record = plain_record()
+    record.add_protocluster(SideloadedProtocluster(FL(20, 30, 1), FL(10, 40, 1), "tool", "prodA", neighbourhood_range=10))
+    bio1, _text, reloaded = roundtrip_json(record)
+    bio2, _text2 = write_json(reloaded)
+    core1 = [f for f in bio1.features if f.type == "proto_core"][0]
+    core2 = [f for f in bio2.features if f.type == "proto_core"][0]
+    return "core_location" not in core1.qualifiers and "core_location" in core2.qualifiers
+
+
+def witness7_reproduces():
+    """ a CDS read with /note that received another note writes that note once more on every to_biopython call """
+    from Bio.SeqFeature import SeqFeature
+    from antismash.common.secmet.locations import FeatureLocation as FL
+    record = plain_record()
+    record.add_biopython_feature(SeqFeature(FL(9, 39, 1), type="CDS", qualifiers={"locus_tag": ["g"], "translation": ["M" * 10],
+                                                                                 "note": ["from input"]}))
+    record.get_cds_by_name("g").notes.append("added")
+    first = [f.qualifiers["note"] for f in record.to_biopython().features if f.type == "CDS"][0]
+    second = [f.qualifiers["note"] for f in record.to_biopython().features if f.type == "CDS"][0]
+    return list(first) != list(second)
+
+
+
+def witness8_reproduces():
+    """ a PFAM domain without gene ontologies is written without the qualifier, its reloaded self with an empty one """
+    from antismash.common.secmet.features import CDSFeature, PFAMDomain
+    from antismash.common.secmet.locations import FeatureLocation as FL
+    record = plain_record()
+    record.add_cds_feature(CDSFeature(FL(9, 39, 1), translation="M" * 10, locus_tag="g"))
+    dom = PFAMDomain(FL(9, 21, 1), "desc", FL(0, 4), "PF00001.1", "tool", "g", domain="dom")
+    dom.domain_id = "pf1"
+    record.add_pfam_domain(dom)
+    bio1, _text, reloaded = roundtrip_json(record)
+    bio2, _text2 = write_json(reloaded)
+    first = [f for f in bio1.features if f.type == "PFAM_domain"][0]
+    second = [f for f in bio2.features if f.type == "PFAM_domain"][0]
+    return "gene_ontologies" not in first.qualifiers and second.qualifiers.get("gene_ontologies") == []
+
+
 # ---------------------------------------------------------------- run
 
 RULE = ("(a) codec: text locations with all three position kinds, four strand spellings, join/order with 2-5 parts, values up to "
@@ -806,7 +1521,15 @@ RULE = ("(a) codec: text locations with all three position kinds, four strand sp
         "at least two collections of one kind; distinct by flat encoding.  (c) whole records with genes (gene functions, "
         "notes, codon_start 1-3, multi-exon and origin-spanning genes), PFAM/aSDomain/motif features, ordinary and sideloaded "
         "protoclusters and subregions, candidates and regions: canonical dump and text fixed point through both paths "
-        "(real code only).")
+        "(real code only).  Every whole record additionally carries sec_met domains, gene functions of all six kinds (with "
+        "and without product, '<id>: <text>' descriptions), awkward notes, modules over fresh aSDomains with monomers, and "
+        "sideloaded subregions / protoclusters / labelled subregions whose tool names, labels and extra qualifier values are "
+        "free text (': ', ':', quotes, brackets, up to 25 words so that GenBank wraps them; no token over 40 characters and "
+        "no double / leading / trailing space: Biopython's line wrapping does not preserve those); the freshly BUILT record "
+        "is compared field by field (attributes read from the objects) with its reloaded self through both routes and its "
+        "first output with the second, every difference attributed on its own to a recorded class or reported.  (d) "
+        "qualifier codecs against the model: aStool written by the real area classes and read back, gene function text "
+        "form written / read (also 1-2 character mutations), _parse_format on the sec_met domain label, number lists.")
 
 
 def run(chk):
@@ -825,6 +1548,14 @@ def run(chk):
     model = common.correspondence(chk, cases, outs, describe=lambda flat: {"function": flat[1], "payload": flat[2:]},
                                   label="location / integer text codec")
     chk.crosscheck_vm(cases, model, k=100 if quick else 600)
+
+    # (d) qualifier codecs
+    entry4, entry5, entry6, entry7, entry8 = (known_entry(c) for c in (KNOWN_CLASS4, KNOWN_CLASS5, KNOWN_CLASS6, KNOWN_CLASS7,
+                                                                       KNOWN_CLASS8))
+    q_cases, q_outs = qualifier_codec_cases(chk, 6000 if quick else 80000, entry4 is not None, entry5 is not None)
+    q_model = common.correspondence(chk, q_cases, q_outs, describe=lambda flat: {"function": flat[1], "payload": flat[2:]},
+                                    label="qualifier codecs (aStool, gene function text, _parse_format, number lists)")
+    chk.crosscheck_vm(q_cases, q_model, k=60 if quick else 400)
 
     # (b) skeletons
     total = 6000 if quick else 60000
@@ -905,7 +1636,10 @@ def run(chk):
         chk.count(key, val)
 
     # (c) whole records
-    whole_record_stream(chk, 250 if quick else 4000, known_listed, entry2 is not None, entry3 is not None)
+    listed = {KNOWN_CLASS: known_listed, KNOWN_CLASS2: entry2 is not None, KNOWN_CLASS3: entry3 is not None,
+              KNOWN_CLASS4: entry4 is not None, KNOWN_CLASS5: entry5 is not None, KNOWN_CLASS6: entry6 is not None,
+              KNOWN_CLASS7: entry7 is not None, KNOWN_CLASS8: entry8 is not None}
+    whole_record_stream(chk, 250 if quick else 4000, known_listed, entry2 is not None, entry3 is not None, listed)
 
     if known_listed and reproduces(witness_reproduces):
         chk.known(entry["what_fails"])
@@ -913,6 +1647,10 @@ def run(chk):
         chk.known(entry2["what_fails"])
     if entry3 is not None and reproduces(witness3_reproduces):
         chk.known(entry3["what_fails"])
+    for ent, wit in ((entry4, witness4_reproduces), (entry5, witness5_reproduces), (entry6, witness6_reproduces),
+                     (entry7, witness7_reproduces), (entry8, witness8_reproduces)):
+        if ent is not None and reproduces(wit):
+            chk.known(ent["what_fails"])
     chk.extra["not_modelled"] = ("Biopython GenBank writer/reader (line wrapping, header), orjson, qualifier codecs of gene-level "
                                  "features: covered by the whole-record stream only")
     return chk.finish(RULE, trusted_extra=("Biopython 1.81 SeqIO GenBank writer/reader and orjson are exercised, not modelled",))
